@@ -151,10 +151,12 @@ TwinBlocks ==
   \A r \in rel : (r.mode = "blocks" /\ Touches(r)) =>
     \A k \in 1..Min(Len(blk[r.a]), Len(blk[r.b])) : blk[r.a][k] = blk[r.b][k]
 
-\* evaluation instants of the two output streams coincide (2^-18 frames)
+\* evaluation instants of the two output streams coincide (2^-18 frames; r.c: one quantum of the
+\* sub-filter grid for nearest-point selection at ratios whose positions are not exact in binary - there
+\* a rounding difference of 1e-13 frame between two chunkings legitimately flips a tie)
 TwinTaus ==
   \A r \in rel : (r.mode = "taus" /\ Touches(r)) =>
-    \A k \in 1..Min(Len(tau[r.a]), Len(tau[r.b])) : Abs(Diff(tau[r.a][k], tau[r.b][k])) <= 4
+    \A k \in 1..Min(Len(tau[r.a]), Len(tau[r.b])) : Abs(Diff(tau[r.a][k], tau[r.b][k])) <= 4 + r.c
 
 \* C08: instance a is fed the index signal (its outputs are the evaluation instants), instance b
 \* the one-hot signal e_h with identical calls: output k of b must be the cardinal polynomial of
